@@ -1,10 +1,52 @@
-import JP.Driver
-import JP.Impl.Den
+import JP.Lemmas.ScanBasic
+import JP.Lemmas.ScanSim
+import JP.Lemmas.ScanWs
 
-/-! # Property C16 — theorems (see DESIGN.md §6) -/
+/-!
+# C16: the codec accepts exactly the RFC 8259 grammar
 
-namespace JP
-namespace C16
+* `scanner_iff`: the byte-level scanner (`json.Valid`) accepts a text iff the RFC 8259
+  reference parser `parseCst` does;
+* `compact_accepts`, `indent_accepts`: `Compact` / `Indent` fail exactly when `Valid` fails;
+* `valid_ws`: white space before and after a text is irrelevant to `Valid`.
 
-end C16
-end JP
+The proofs are in `JP/Lemmas/Scan*.lean`.
+-/
+
+namespace JP.C16
+open JP
+
+/-- the scanner accepts exactly the texts the RFC 8259 reference parser accepts -/
+theorem scanner_iff (bs : Bytes) : Scanner.valid bs = true ↔ (parseCst bs).isSome = true := by
+  rw [Scanner.valid_iff_parseCst]
+
+/-- Compact accepts exactly what Valid accepts (for either escaping flag) -/
+theorem compact_accepts (e : Bool) (bs : Bytes) : (Scanner.compact e bs).isSome = Scanner.valid bs :=
+  Scanner.compact_isSome e bs
+
+/-- Indent accepts exactly what Valid accepts -/
+theorem indent_accepts (ind bs : Bytes) : (Scanner.indent ind bs).isSome = Scanner.valid bs :=
+  Scanner.indent_isSome ind bs
+
+/-- white space (space, tab, CR, LF) around a text does not change the verdict of `Valid` -/
+theorem valid_ws (ws₁ bs ws₂ : Bytes) (h₁ : ∀ c ∈ ws₁, isWs c = true) (h₂ : ∀ c ∈ ws₂, isWs c = true) :
+    Scanner.valid (ws₁ ++ bs ++ ws₂) = Scanner.valid bs :=
+  Scanner.valid_ws_eq ws₁ bs ws₂ h₁ h₂
+
+example : Scanner.valid (ascii " {\"a\" : [1, -2.5e+3, true, null, \"x\\u00e9\\n\"]} ") = true := by decide
+example : (parseCst (ascii " {\"a\" : [1, -2.5e+3, true, null, \"x\\u00e9\\n\"]} ")).isSome = true := by
+  decide +kernel
+example : Scanner.valid (ascii "[01]") = false := by decide
+example : (parseCst (ascii "[01]")).isSome = false := by decide
+example : (Scanner.compact true (ascii " [1, {\"a\":\"<\"}] ")).isSome = true := by decide
+example : (Scanner.indent (ascii "  ") (ascii "[1,{\"a\":null}]")).isSome = true := by decide
+example : (Scanner.indent (ascii "  ") (ascii "[1,{\"a\":nul}]")).isSome = false := by decide
+
+example : (∀ c ∈ ascii " \t\r\n", isWs c = true) ∧ Scanner.valid (ascii "[1]") = true := by decide
+
+-- all four: no axioms beyond propext, Classical.choice, Quot.sound
+-- #print axioms scanner_iff
+-- #print axioms valid_ws
+-- #print axioms compact_accepts
+-- #print axioms indent_accepts
+end JP.C16
